@@ -107,7 +107,8 @@ def r3(ctx):
     ctx.check(rt == want, comp, "compress gathers matrix[table(n)] with n the matrix size", role="compress", expected=str(want), found=str(rt)[:140])
     from .c03 import scatter_site
     unc = scatter_site(ana)      # the scatter helper, or reinflate_matrix when the helper was folded into it
-    bu = ana.builder(unc, no_inline=lambda f: nin(f) or f.qualname.endswith("_full_matrix_size"))
+    fsize_ = ana.func(MC + "_full_matrix_size")
+    bu = ana.builder(unc, no_inline=lambda f: nin(f) or f is fsize_ or f.qualname.endswith("_full_matrix_size"))
     v = Sym(unc.params[0])
     stores = bu.stores()
     szt = App(ana.func(MC + "_full_matrix_size").qualname, (Idx(Attr(v, "shape"), (tm.ZERO,)),))
